@@ -149,4 +149,34 @@ def encodeLmh (sizeField elementIndex : BitVec 32) : Option (Bool Ã— BitVec 32 Ã
   let maxElementIndex := 15#32 >>> sizeField
   some (elementIndex.ule maxElementIndex, (elementIndex <<< lmShift) &&& 3#32, elementIndex >>> hShift, (8#32 <<< sizeField) - 1#32)
 
+/-! ### bit-field aliases: `lsb, width -> immr, imms` (a64assembler.cpp, cases BaseBfc / BaseBfi / BaseBfx / BaseBfm) -/
+
+/-- BaseBfc / BaseBfi (BFC, BFI, SBFIZ, UBFIZ): `immr = -lsb MOD size`, `imms = width - 1`; `none` = kInvalidImmediate.
+`lsb`, `width` are the 64-bit immediate operand values (`value_as<uint64_t>`). -/
+def encodeBfi (x : Bool) (lsb width : BitVec 64) : Option (BitVec 32 Ã— BitVec 32) :=
+  let opSize : BitVec 64 := if x then 64#64 else 32#64
+  if opSize.ule lsb || width == 0#64 || (opSize - lsb).ult width then none else
+  let immr := (0#32 - lsb.truncate 32) &&& (opSize.truncate 32 - 1#32)
+  let imms := width.truncate 32 - 1#32
+  some (immr, imms)
+
+/-- BaseBfx (BFXIL, SBFX, UBFX): `immr = lsb`, `imms = lsb + width - 1` -/
+def encodeBfx (x : Bool) (lsb width : BitVec 64) : Option (BitVec 32 Ã— BitVec 32) :=
+  let opSize : BitVec 64 := if x then 64#64 else 32#64
+  if opSize.ule lsb || width == 0#64 || opSize.ult width then none else
+  let lsb32 := lsb.truncate 32
+  let width32 := lsb32 + width.truncate 32 - 1#32
+  if (opSize.truncate 32).ule width32 then none else
+  some (lsb32, width32)
+
+/-- BaseBfm (BFM, SBFM, UBFM): the raw fields -/
+def encodeBfm (x : Bool) (immr imms : BitVec 64) : Option (BitVec 32 Ã— BitVec 32) :=
+  let opSize : BitVec 64 := if x then 64#64 else 32#64
+  if opSize.ule (immr ||| imms) then none else some (immr.truncate 32, imms.truncate 32)
+
+/-- the opcode word: `opcode | x<<31 | x<<22 | immr<<16 | imms<<10 | Rn<<5 | Rd` -/
+def bfWord (opcode : BitVec 32) (x : Bool) (immr imms rn rd : BitVec 32) : BitVec 32 :=
+  let xb : BitVec 32 := if x then 1#32 else 0#32
+  opcode ||| (xb <<< 31) ||| (xb <<< 22) ||| (immr <<< 16) ||| (imms <<< 10) ||| ((rn &&& 31#32) <<< 5) ||| (rd &&& 31#32)
+
 end AsmjitVerif.A64Imm
